@@ -206,6 +206,38 @@ def render_images_doc(Dc):
                                        "images": images}}
 
 
+def check_current_doc_with_bad_arch(ctx, pmi, rng):
+    """A CURRENT-version images document that files a cell under src / nosrc / an unknown name: whatever the loader does
+    with it (reject or re-file), no such key may end up in the manifest or in what it writes."""
+    Dc = gen_images_doc(rng, "1.1")
+    Dc["version"] = "1.2"
+    bad = rng.choice(["src", "nosrc", "x86-64", "SRC"])
+    v = rng.choice(sorted(Dc["layout"]))
+    cells = Dc["layout"][v]
+    if "src" in cells and bad != "src":
+        cells[bad] = cells.pop("src")
+    elif "src" not in cells:
+        a = rng.choice(sorted(cells))
+        cells[bad] = cells.pop(a)
+    doc = render_images_doc(Dc)
+    ctx.count("current-doc-bad-arch")
+    try:
+        im = pmi.Images()
+        im.loads(json.dumps(doc))
+    except Exception:
+        ctx.monitor("no-source-key")
+        return
+    probs = bad_keys(im.images)
+    try:
+        probs += bad_keys(json.loads(im.dumps())["payload"]["images"])
+    except Exception:
+        pass
+    ctx.monitor("no-source-key", fired=bool(probs))
+    if probs:
+        ctx.violation("no-source-key", "an images manifest never has src, nosrc or an unknown name as a tree architecture - also not one "
+                      "loaded from a current-version document", {"version": "1.2", "layout": Dc["layout"]}, observed=probs[:5], expected="none")
+
+
 def check_images_doc(ctx, pmi, Dc):
     ctx.count("images-doc-" + Dc["version"])
     nontrivial = False
@@ -406,6 +438,8 @@ def run_shard(ctx):
         if i % 32 == 0 and ctx.out_of_time():
             ctx.note("stopped_early_at", i)
             break
+        if i % 8 == 3:
+            check_current_doc_with_bad_arch(ctx, pmi, rng)
         if i % 2 == 0:
             Dc = gen_images_doc(rng, "1.0" if i % 4 == 0 else "1.1")
             nt = check_images_doc(ctx, pmi, Dc)
